@@ -175,6 +175,12 @@ func (a *Act) staticCall(res ssa.Value, instr ssa.Instruction, fn *ssa.Function,
 		return
 	}
 	if hasLoops(fn) {
+		if eng.inRepo(fn) {
+			// default contract of an uncontracted function with loops: it may modify the object its pointer receiver points
+			// to and nothing else that exists; the same default is what the sweep checks the function itself against
+			a.callByContract(res, instr, fn, eng.defaultContract(fn), args, st, reach)
+			return
+		}
 		a.havocCall(res, instr, st, reach, "callee has loops and no contract "+name, eng.effectFree(fn))
 		return
 	}
@@ -367,6 +373,25 @@ func (a *Act) invoke(res ssa.Value, instr ssa.Instruction, c *ssa.CallCommon, re
 	}
 	if ct := eng.contracts[key]; ct != nil {
 		a.callByContract(res, instr, nil, ct, append([]string{recv}, args...), st, reach)
+		return
+	}
+	if (c.Method.Name() == "FromBytes" || c.Method.Name() == "Unmarshal") && strings.HasPrefix(shortName(it.String()), "dhcpv") {
+		// decoding methods called through an interface: default contract "modifies the object the receiver points to"
+		g.note("interface call %s uses the default decoder contract (modifies its receiver object only)", key)
+		recvRef := fmt.Sprintf("(pref (ubPtr (ibox %s)))", recv)
+		g.assumeIf(reach, fmt.Sprintf("(is-bPtr (ibox %s))", recv))
+		a.frameOblige(instr, reach, recvRef, "decoder "+key)
+		named := g.def(a.nm("mod"), "Int", recvRef)
+		post := &State{H: map[string]string{}}
+		post.Next = g.havoc(a.nm("after_decode_next"), "Int")
+		g.assumeIf(reach, fmt.Sprintf("(>= %s %s)", post.Next, st.Next))
+		for _, k := range heapKinds {
+			post.H[k] = g.framedHeapK(a.nm("after_decode"), k, st.H[k], st.Next, []string{named}, nil, true)
+		}
+		*st = *post
+		if res != nil {
+			a.havocValue(res, reach, st)
+		}
 		return
 	}
 	// closed world dispatch when the implementations are few and known
